@@ -234,7 +234,7 @@ def run(case):
                 ok = True  # residuals at rounding level (perfect fit): absolute floor
         facet_obs = obs
         if not ok and obs == "parameter_errors" and F._minimizer in (None, "iminuit"):
-            # facet naming only (root cause of KF-C15-3; no in-domain demonstration was found for C03, so nothing is listed): with iminuit parameter_errors are MIGRAD's running estimates, which depend on the path of
+            # bug model of KF-C03-1 (same root cause as KF-C15-3): with iminuit parameter_errors are MIGRAD's running estimates, which depend on the path of
             # the minimisation, while the HESSE covariance matrices of the two fits agree
             try:
                 if _min_equal("parameter_cov_mat", H.parameter_cov_mat, F.parameter_cov_mat, H, F) and np.all(np.abs(np.asarray(h, float)) < 10 * np.abs(np.asarray(f, float)) + 1e-300):
@@ -454,6 +454,12 @@ def _min_equal(obs, h, f, H, F):
     if obs == "parameter_cov_mat":
         return bool(np.all((np.abs(h - f) <= rel * np.outer(e, e) + 1e-300) | both_nan))
     return bool(np.all((np.abs(h - f) <= (0.03 if cond_cor <= 1e3 else 0.1)) | (np.isnan(h) & np.isnan(f))))
+
+
+KNOWN = {
+    # same root cause as KF-C15-3 (parameter_errors are MIGRAD's running estimates): they depend on the state carried over from earlier fits
+    "KF-C03-1": lambda sub, case, v: v.facet == "history-dependent:parameter_errors-migrad-estimate",
+}
 
 
 def _replace_data(H, cfg, op, spec0):
